@@ -88,6 +88,9 @@ bool hmac::cmphmac(u8_t hashtype, u8_t *key, FILE *fp, const u8_t *hmac_out, siz
     getres(hashtype, key, fp, fsize);
     WV_GHOST(WV_SNAP_TAG(this->hmac_res, this->length);)
     for (int i = 0; i < length; ++i)
+    WV_LOOP(__CPROVER_assigns(i)
+            __CPROVER_loop_invariant(0 <= i && i <= this->length && WV_TAG_IS(this->hmac_res, this->length) && WV_TAGEQ(hmac_out, i))
+            __CPROVER_decreases(this->length - i))
         if (hmac_out[i] != hmac_res[i])
         {
             delete[] hmac_res;
